@@ -1,2 +1,9 @@
 import FpgoVerif.Model.C19
-/-! Property theorems for C19 (none yet). -/
+/-! Property theorems for C19. -/
+namespace FpgoVerif.C19
+
+/-- `sortBy less l` is a permutation of `l` (any comparator). -/
+theorem C19_sort_perm {α : Type} (less : α → α → Bool) (l : List α) : (sortBy less l).Perm l :=
+  List.mergeSort_perm l _
+
+end FpgoVerif.C19
